@@ -38,6 +38,10 @@ fn scenarios(tier: Tier) -> Vec<Scenario> {
 		// a coinbase-only extension and one with a spend
 		Scenario { name: "extend-plain-v5", universe: "long", prelude: vec!["*upto:x20"], op: vec!["B(x21)"] },
 		Scenario { name: "extend-spend-v5", universe: "long", prelude: vec!["*upto:x11"], op: vec!["B(x12)"] },
+		// and a fork block / a reorganisation with spends on both sides under version-5 headers
+		// (x90 spends coinbase 4, y90 spends coinbase 80; y91 makes the fork heavier)
+		Scenario { name: "fork-block-v5", universe: "long", prelude: vec!["*upto:x90"], op: vec!["B(y90)"] },
+		Scenario { name: "reorg-spends-v5", universe: "long", prelude: vec!["*upto:x90", "B(y90)"], op: vec!["B(y91)"] },
 	];
 	if tier == Tier::Thorough {
 		v.push(Scenario { name: "compact-then-block", universe: "long", prelude: vec!["*main"], op: vec!["compact", "B(x91)"] });
@@ -103,6 +107,13 @@ pub fn universe(sc: &uni::Scratch, name: &str) -> Tree {
 			}
 			let x90 = prev.unwrap();
 			let _x91 = tb.add("x91", Some(x90), &BlockSpec::empty(91));
+			// an alternative block 91 that spends two sibling leaves far below the horizon
+			// (coinbases 6 and 7); the fork y90..y92 reorgs it out again (used by C17)
+			let _z91 = tb.add(
+				"z91",
+				Some(x90),
+				&BlockSpec::with(291, vec![uni::spend_coinbase(&kc, 6, REWARD, &[(1006, REWARD - m)], 106), uni::spend_coinbase(&kc, 7, REWARD, &[(1007, REWARD - m)], 107)]),
+			);
 			// fork from x89 inside the horizon: y90 y91 y92
 			let x89 = tb.tree.blocks.iter().position(|b| b.name == "x89").unwrap();
 			let y90 = tb.add("y90", Some(x89), &BlockSpec::with(190, vec![uni::spend_coinbase(&kc, 80, REWARD, &[(1080, REWARD - m)], 180)]));
@@ -543,7 +554,7 @@ impl Engine for C09 {
 	fn meta(&self, _tier: Tier) -> Meta {
 		Meta {
 			level: "fault_enumeration",
-			rule: "for each scenario (plain extension, fork block, reorg with spends, header-by-header reorg, header-batch reorg, compaction, coinbase-only and spending extension under version-5 headers; thorough adds compaction+block, first start, reorg after compaction, restart of a consistent node (plain / compacted), orphan cascade, bodies of a fork whose headers are already known, and for every crash point that recovers a SECOND kill at every crash point of the restart) a counting run records every crash point (hook calls at every file flush step, temp-file rename, file replace, LMDB commit, and between the backend syncs of an extension) the interrupted operation executes; then for EVERY crash point n a child process is killed (abort, no destructors) at it and a second process reopens the directory: Chain::init must be Ok, the head an allowed block, validate(false) Ok, the unspent set equal to the reference replay, and after re-delivering the interrupted input the best-chain fingerprint must equal that of an uninterrupted twin. One case = one (scenario, crash point); all distinct.",
+			rule: "for each scenario (plain extension, fork block, reorg with spends, header-by-header reorg, header-batch reorg, compaction, and under version-5 headers a coinbase-only extension, a spending extension, a fork block and a reorganisation with spends; thorough adds compaction+block, first start, reorg after compaction, restart of a consistent node (plain / compacted), orphan cascade, bodies of a fork whose headers are already known, and for every crash point that recovers a SECOND kill at every crash point of the restart) a counting run records every crash point (hook calls at every file flush step, temp-file rename, file replace, LMDB commit, and between the backend syncs of an extension) the interrupted operation executes; then for EVERY crash point n a child process is killed (abort, no destructors) at it and a second process reopens the directory: Chain::init must be Ok, the head an allowed block, validate(false) Ok, the unspent set equal to the reference replay, and after re-delivering the interrupted input the best-chain fingerprint must equal that of an uninterrupted twin. One case = one (scenario, crash point); all distinct.",
 			assumptions: vec![
 				"kill = process death (page cache survives); power-loss reordering of unsynced pages is outside the property".into(),
 				"crash points are the hook call sites listed in MANIFEST.hooks / DESIGN §3 (every durable step of store/src/{types,lib,pmmr,lmdb}.rs and the sync sequence of txhashset extending/header_extending)".into(),
